@@ -229,6 +229,16 @@ def binary_ops():
     ]
 
 
+def cond_ops():
+    """Conditional('n', x) and Conditional('n', x, y): operands are patterns like everywhere else"""
+    return [
+        Op('conditional', (), 1, [('class', "Conditional('n', {0})")],
+           lambda x: '(?(n)' + g(x) + ')', 'cond'),
+        Op('conditional2', (), 2, [('class', "Conditional('n', {0}, {1})")],
+           lambda x, y: '(?(n)' + g(x) + '|' + g(y) + ')', 'cond', strpos=()),
+    ]
+
+
 ASSERTION_OPS = {'match_at_start', 'match_at_end', 'match_at_line_start', 'match_at_line_end',
                  'followed_by', 'preceded_by', 'enclosed_by'}
 
